@@ -95,6 +95,10 @@ def run(ck, prog, tier):
         if o.kind == 'return' and isinstance(o.value, Tup) and o.value.items[0] != Sym.const(0):
             # use the path without equality assumptions (snap not taken)
             conds = [motion.norm_path_cond(c, t) for c, t in o.state.path]
+            if any(c is None for c in conds):
+                continue
+            from .c01 import merge_tolerance_windows
+            conds = merge_tolerance_windows(conds)
             if any(op in ('<', '<=') and any(a[0] == 'f' and a[1] == 'ABS' for a in e.atoms())
                    for e, op in conds):
                 continue
